@@ -81,6 +81,13 @@ impl std::ops::Index<RegexNodeId> for [RegexNode] {
     }
 }
 
+#[cfg(feature = "verif")]
+impl RegexNodeId {
+    pub fn index(self) -> usize {
+        self.0
+    }
+}
+
 fn alloc(arena: &mut Vec<RegexNode>, elem: RegexNode) -> RegexNodeId {
     let id = arena.len();
     arena.push(elem);
